@@ -680,6 +680,14 @@ func (fc *FuncCtx) eqFormula(in ssa.Instruction, a, b ssa.Value) *bddNode {
 	if la := lenArg(b); la != nil && isIntConst(a, 0) {
 		return fc.emptyAtom(in, la)
 	}
+	// a parameter of an inlined callee that is bound to a constant argument is that constant (use == "encryption" for
+	// helper(.., "encryption"))
+	if ca := fc.constArg(a, 0); ca != nil {
+		return fc.eqFormula(in, ca, b)
+	}
+	if cb := fc.constArg(b, 0); cb != nil {
+		return fc.eqFormula(in, a, cb)
+	}
 	// a parameter of an inlined callee compared with a constant: compare the caller's argument (which may be a phi)
 	if pa, ok := a.(*ssa.Parameter); ok && fc.parent != nil {
 		if isConstLike(b) {
@@ -2506,4 +2514,21 @@ func isConstLike(v ssa.Value) bool {
 		}
 	}
 	return false
+}
+
+// constArg: v is a parameter of a callee analysed as part of its caller and the caller passes a constant for it (possibly
+// its own parameter bound the same way): that constant.
+func (fc *FuncCtx) constArg(v ssa.Value, depth int) *ssa.Const {
+	prm, ok := v.(*ssa.Parameter)
+	if !ok || fc.parent == nil || depth > 4 {
+		return nil
+	}
+	av := fc.argVal[prm]
+	if av == nil {
+		return nil
+	}
+	if c, ok := av.(*ssa.Const); ok {
+		return c
+	}
+	return fc.parent.constArg(av, depth+1)
 }
